@@ -8,6 +8,7 @@ THEOREMS = [
     "C06.wm_views_agree",
     "C06.wm_views_agree_history",
     "C06.fire_all_bounded",
+    "C06.fire_all_skips_terminate",
     "C06.quiescent_fire_all_exact",
     "C06.quiescent_fire_all_exact_bound",
     "C06.quiescent_fire_all_exact_iff",
@@ -17,7 +18,9 @@ N = {"quick": 1500, "thorough": 20000}
 EXHAUSTIVE = {"quick": False, "thorough": False}
 EXEC_TIMEOUT = 900
 RULE = ("cases = corpus (defect witnesses, corner cases) + N random histories of 2..13 calls (insert / update / retract / fire_all / reset, "
-        "including unknown and retracted handles) over <= 6 facts of <= 3 types and 1..3 single-type rules of the typed core "
+        "including unknown and retracted handles) over <= 6 facts of <= 3 types and 1..3 single-type rules of the typed core; every 50th case is of the family 'many stale / duplicate "
+        "activations' (1 or 3..6 facts, 2..4 high-salience rules + one low-salience rule, enough updates for > 1000 activations that are then "
+        "made stale: F-C06b), every 10th of the family 'negated rules on a multi-type store' (F-C06c) "
         "(alpha nodes with ==,!=,<,<=,>,>= against integer/boolean/string literals or another field, combined by and/or/not; actions: "
         "none, assignments of literals to fields of the rule's type, retract of the matched fact). Rules are built through the public "
         "API with exactly the node GrlReteLoader builds and an action closure that records (rule, matched handle, contents of the matched "
@@ -41,8 +44,7 @@ ASSUMPTIONS = [
     "`Type.field` keys of the flattened copy) is a free choice of the implementation: the model fixes one, the theorems do not depend "
     "on it, complete observations are compared only when at most one fact per type is live, the oracle is evaluated always",
     "rules are added before any fact is inserted (as GrlReteLoader users do); activations are created by propagation only",
-    "exactness clause: fact contents are maps (one binding per field, as TypedFacts is a HashMap); the number of pending activations "
-    "plus the number of rules does not exceed max_iterations = 1000 (stale activations are popped first and count as iterations)",
+    "exactness clause: fact contents are maps (one binding per field, as TypedFacts is a HashMap); at most max_iterations = 1000 rules",
 ]
 
 
@@ -66,10 +68,11 @@ LEVEL_TEXT = ("Lean 4 theorems (kernel-checked, unbounded histories) about an ex
               "histories and by evaluating the Spec oracle on the implementation's observations of every history. The exactness clause "
               "is proved too (quiescent_fire_all_exact): for quiet no-loop rule sets, after ANY history (earlier fire_all calls and resets "
               "included) followed by calls other than fire_all that insert or update every live fact, fire_all fires every rule not yet "
-              "fired since the last reset that a live fact of its type satisfies, each once, and no other rule, provided pending activations + "
-              "rules <= 1000 (max_iterations); without that size hypothesis the clause is false (counterexample theorem). The oracle "
+              "fired since the last reset that a live fact of its type satisfies, each once, and no other rule, provided there are at most "
+              "1000 rules (max_iterations; after fix-C06b only executed activations are counted, so stale or duplicate pending "
+              "activations no longer matter; the bound itself is still needed: counterexample theorem). The oracle "
               "clause exactOk is still evaluated on every applicable run.")
 LEVEL_NOTE = ("Trusted: Lean kernel + {propext, Classical.choice, Quot.sound}; hand-written model tied to the code by differential testing "
               "only; recorder closure mimics the GRL action closure. quiescent_fire_all_exact carries the explicit hypotheses: contents are maps (one "
-              "binding per field), every live fact inserted/updated since the last fire_all, pending activations + rules <= 1000.")
+              "binding per field), every live fact inserted/updated since the last fire_all, at most 1000 rules.")
 DESIGN_REF = "§6 C06"
